@@ -313,6 +313,32 @@ def check_file(ctx, V, C, spec, deep=True):
                     ok = False
         except Exception as e:  # noqa
             W(ctx, 'resave', f'saving the read-back texture raised {type(e).__name__}: {e}', inp); ok = False
+        # VTF.get() addresses exactly the frames of the table
+        try:
+            r = iv['_obj']
+            cube = bool(spec['flags'] & 0x4000)
+            for k, fr in r._frames.items():
+                f, d, m = U.key_val(k)
+                g = r.get(frame=f, side=V.CubeSide(d), mipmap=m) if cube else r.get(frame=f, depth=d, mipmap=m)
+                if g is not fr:
+                    W(ctx, 'get', f'VTF.get(frame={f}, depth/side={d}, mipmap={m}) returns another frame', inp); ok = False
+                    break
+            if len(r) != len(r._frames):
+                W(ctx, 'get', 'len(vtf) is not the number of frames', inp); ok = False
+            for bad, exc in (([dict(side=V.CubeSide.FRONT, depth=1)], 'TypeError'),
+                             ([dict()] if cube else [], 'ValueError'),
+                             ([dict(frame=spec['frames'])], 'KeyError'), ([dict(mipmap=len(levels))], 'KeyError')):
+                for kw in bad:
+                    if cube and 'side' not in kw and exc == 'KeyError':
+                        kw = dict(kw, side=V.CubeSide.FRONT)
+                    try:
+                        r.get(**kw); got = None
+                    except Exception as e:  # noqa
+                        got = type(e).__name__
+                    if got != exc:
+                        W(ctx, 'get', f'VTF.get({kw}) -> {got}, expected {exc}', inp); ok = False
+        except Exception as e:  # noqa
+            W(ctx, 'get', f'VTF.get raised {type(e).__name__}: {e}', inp); ok = False
         # header_only: same metadata and frame table, frames are blank
         hv = U.impl_view(V, data, header_only=True)
         if 'err' in hv:
